@@ -844,7 +844,7 @@ class Gantt:
         self.f = f = ctx.prog.func(qual(GANTT, '__src'))
         self.w = wbs_attr(ctx, GANTT)
         self.acc = Acc(ctx, f)
-        self.em = emissions(ctx, f, self.acc, lambda n: isinstance(n, ast.Attribute) and n.attr in ('strftime', 'start', 'end'))
+        self.em = emissions(ctx, f, self.acc, lambda n: isinstance(n, ast.Attribute) and n.attr == 'strftime')
         self.lines = [e for e in self.em if any(_mentions(v, ('start', 'end', 'strftime')) for v in vals(e.parts))]
         for e in self.lines:
             e.roles = line_roles(ctx, f, e.parts)
@@ -1492,3 +1492,606 @@ def check_network(ctx, o, osk):
                        f"two different texts")
         else:
             osk.site(f, ed.stmt, f"network {'start' if ed.is_start else 'edge'} {side} label: {src(nt)}.name {chain}")
+
+
+# ------------------------------------------------------------------------------------------------------- dhtmlx
+def origin(f: Func, e: ast.AST, at):
+    """follow plain names to the expression they were (uniquely) assigned from: (original expr, cfg node)"""
+    fl = flow_of(f)
+    for _ in range(6):
+        if isinstance(e, ast.Name) and at is not None:
+            d = fl.unique_def(e.id, at)
+            if d is not None and d.kind == 'assign' and d.value is not None and d.node is not at:
+                e, at = d.value, d.node
+                continue
+        break
+    return e, at
+
+
+def dict_items(d: ast.Dict) -> Optional[Dict[str, ast.AST]]:
+    out = {}
+    for k, v in zip(d.keys, d.values):
+        if k is None or const_str(k) is None:
+            return None
+        out[const_str(k)] = v
+    return out
+
+
+def list_container(o, f: Func, name: str, payload: ast.AST):
+    """appends [(stmt, arg)] of a list that is created empty once, outside loops, and otherwise only appended to"""
+    cfg = cfg_of(f)
+    inits, apps, consumed = [], [], set()
+    for st in walk_no_nested(f.node):
+        if isinstance(st, ast.Assign) and len(st.targets) == 1 and isinstance(st.targets[0], ast.Name) and st.targets[0].id == name:
+            inits.append(st)
+            consumed.add(id(st.targets[0]))
+        elif isinstance(st, ast.AnnAssign) and isinstance(st.target, ast.Name) and st.target.id == name and st.value is not None:
+            inits.append(st)
+            consumed.add(id(st.target))
+        elif isinstance(st, ast.Expr):
+            m = match(f"{name}.append($x)", st.value)
+            if m:
+                apps.append((st, m['x']))
+                consumed.add(id(st.value.func.value))
+    # read-only uses are harmless: value of a dict display (the payload), len(..), truth tests
+    for par in walk_no_nested(f.node, include_lambdas=True):
+        kids = []
+        if isinstance(par, ast.Dict):
+            kids = par.values
+        elif isinstance(par, ast.Call) and isinstance(par.func, ast.Name) and par.func.id in ('len', 'bool', 'print'):
+            kids = par.args
+        elif isinstance(par, (ast.If, ast.While, ast.IfExp)):
+            kids = [par.test]
+        elif isinstance(par, ast.keyword):
+            kids = []
+        for k in kids:
+            if isinstance(k, ast.Name) and k.id == name:
+                consumed.add(id(k))
+    for n in walk_no_nested(f.node, include_lambdas=True):
+        if isinstance(n, ast.Name) and n.id == name and id(n) not in consumed:
+            st = stmt_of(f.node, n)
+            raise Und(f, st or n, f"{name}: other use", f"the list `{name}` is also used as `{src(st or n)[:70]}`, which the rule does not model")
+    if len(inits) != 1 or not (match("[]", inits[0].value) or match("list()", inits[0].value)):
+        raise Und(f, f.node, f"{name}: init", f"the list `{name}` is not created exactly once as an empty list")
+    n0 = cfg.node_of(inits[0])
+    if cfg.enclosing_loops(n0):
+        o.refute(f, inits[0], f"{name} = [] in loop", f"the list `{name}` is re-created inside a loop: entries of earlier iterations are dropped")
+        return None
+    return apps
+
+
+def check_dhtmlx(ctx, O):
+    o, oj, ofm, osk = O['once'], O['json'], O['formats'], O['sinks']
+    prog = ctx.prog
+    f = prog.func(qual(DHX, '__data'))
+    w = wbs_attr(ctx, DHX)
+    cfg, fl = cfg_of(f), flow_of(f)
+    chains = loop_chains(f.node)
+    s = f.self_name
+    rets = [r for r in walk_no_nested(f.node) if isinstance(r, ast.Return)]
+    if len(rets) != 1 or rets[0].value is None:
+        raise Und(f, f.node, '__data: return', "__data does not have exactly one `return <text>`")
+    ret = rets[0]
+    containers = {st.targets[0].id for st in walk_no_nested(f.node)
+                  if isinstance(st, ast.Assign) and len(st.targets) == 1 and isinstance(st.targets[0], ast.Name)
+                  and (match("[]", st.value) or match("list()", st.value))}
+    R = Expander(prog, f, ctx.typer).expand(ret.value, stop=containers)
+    base_, chain = sanitiser(R)
+    has_json = f.module.imports.get('json') == 'json'
+    m = None
+    if isinstance(base_, ast.Call) and len(base_.args) == 1 and (
+            (has_json and match("json.dumps", base_.func)) or
+            (f.module.imports.get('dumps') == 'json.dumps' and match("dumps", base_.func))):
+        m = {'p': base_.args[0]}
+    if not m:
+        if isinstance(base_, (ast.JoinedStr, ast.BinOp)) or (isinstance(base_, ast.Call) and getattr(base_.func, 'attr', '') in ('format', 'join')):
+            oj.refute(f, ret, 'payload: manual text', f"the DHTMLX payload is assembled as text (`{src(base_)[:70]}`) instead of "
+                                                      f"json.dumps of Python containers: quotes/backslashes in names break the JSON")
+        else:
+            oj.undecided(f, ret, ret, f"the returned payload `{src(base_)[:70]}` is not json.dumps(..)")
+        return
+    P = m['p']
+    items = dict_items(P) if isinstance(P, ast.Dict) else None
+    if items is None or not {'data', 'links'} <= set(items) or not all(isinstance(items[k], ast.Name) for k in ('data', 'links')):
+        oj.undecided(f, ret, P, "json.dumps argument is not a dict literal {'data': <list>, 'links': <list>}")
+        return
+    kw = {k.arg: k.value for k in base_.keywords}
+    if 'default' in kw or 'cls' in kw:
+        oj.undecided(f, ret, ret, "json.dumps with a custom encoder")
+        return
+    A, B = items['data'].id, items['links'].id
+    oj.site(f, ret, f"payload = json.dumps({{'data': {A}, 'links': {B}}})")
+
+    # ---- sinks (b): `</` neutralised after json.dumps; the placeholder sits in a <script> element
+    good = [(a, b) for a, b in chain if a in ('<', '/', '</') and '</' not in b and b != a and a not in b]
+    if good:
+        osk.site(f, ret, f"json.dumps(..).replace({good[0][0]!r}, {good[0][1]!r}) neutralises `</` inside <script>")
+    else:
+        osk.refute(f, ret, f"json.dumps(..){''.join('.replace(%r, %r)' % c for c in chain)}",
+                   f"the JSON text is embedded in a <script> element {('with only ' + str(chain)) if chain else 'as produced by json.dumps'}: "
+                   f"`</script>` (any case) inside a task name, resource or custom attribute closes the script block; expected "
+                   f".replace('</', '<\\\\/') (or escaping of `<` or `/`) on the json.dumps result")
+    try:
+        tf, tc, tpl, kws, _ = substitute_call(ctx, DHX)
+        rel, text = template_text(ctx, tf, tpl)
+        ph = [k for k, v in kws.items() if any(isinstance(x, ast.Call) and helper_of(ctx, tf, x) is f for x in ast.walk(v))]
+        if text is not None and len(ph) == 1:
+            pos = [mm.start() for mm in _PLACEHOLDER.finditer(text) if (mm.group('named') or mm.group('braced')) == ph[0]]
+            low = text.lower()
+            for p_ in pos:
+                inside = low.rfind('<script', 0, p_) > low.rfind('</script', 0, p_)
+                quoted = text[:p_].rstrip()[-1:] in ('"', "'", '`')
+                if inside and not quoted:
+                    osk.site(tf, tc, f"${ph[0]} is a bare JavaScript expression inside <script> of {rel}")
+                elif inside:
+                    osk.refute(tf, tc, f"{rel}: quoted ${ph[0]}", f"${ph[0]} is placed inside a JavaScript string literal in {rel}: "
+                                                                   f"quotes in names end the literal")
+                else:
+                    osk.undecided(tf, tc, f"{rel}: ${ph[0]}", f"${ph[0]} is not inside a <script> element")
+    except Und as u:
+        osk.undecided(u.func, u.node, u.construct, u.msg)
+
+    # ---- containers and loops
+    dapps = list_container(o, f, A, P)
+    lapps = list_container(o, f, B, P)
+    if dapps is None or lapps is None:
+        return
+    if not dapps:
+        o.refute(f, f.node, f"{A}.append: none", f"nothing is ever appended to `{A}`: the document has no task entries")
+        return
+
+    def hdr(L):
+        return f"for {src(L.target)} in {src(L.iter)}" if isinstance(L, ast.For) else 'while ..'
+
+    def domain(C, what, st):
+        """task loop T of a chain of enclosing loops, or None after recording the verdict"""
+        if not C:
+            o.refute(f, st, f"{what}: outside loops", f"`{src(st)[:60]}` runs outside every loop: one {what} per document instead of "
+                                                       f"one per task")
+            return None
+        L0 = C[0]
+        if not (isinstance(L0, ast.For) and isinstance(L0.target, ast.Name)):
+            o.undecided(f, L0, L0, "outer loop is not `for <name> in ..`")
+            return None
+        it0 = strip_seq(for_iter(ctx, f, L0))
+        if is_all_tasks(it0, f, w):
+            return L0, C[1:], [L0]
+        if match(f"{s}.{w}.roots", it0):
+            r = L0.target.id
+            if len(C) < 2:
+                o.refute(f, st, f"{what}: per root", f"`{src(st)[:60]}` runs once per root of the WBS (`{hdr(L0)}`), not once per "
+                                                     f"task of the root's subtree")
+                return None
+            L1 = C[1]
+            if not (isinstance(L1, ast.For) and isinstance(L1.target, ast.Name)):
+                o.undecided(f, L1, L1, "inner loop is not `for <name> in ..`")
+                return None
+            it1 = strip_seq(for_iter(ctx, f, L1))
+            full = match(f"{r}.all_children + [{r}]", it1) or match(f"[{r}] + {r}.all_children", it1) or \
+                match(f"[{r}, *{r}.all_children]", it1) or match(f"[*{r}.all_children, {r}]", it1) or \
+                match(f"list({r}.all_children) + [{r}]", it1) or match(f"[{r}] + list({r}.all_children)", it1)
+            if full:
+                return L1, C[2:], [L0, L1]
+            if match(f"{r}.all_children", it1):
+                o.refute(f, L1, L1.iter, f"`{hdr(L1)}` omits the root `{r}` itself: root tasks get no entry (expected all_children + [root])")
+            elif match(f"{r}.children + [{r}]", it1) or match(f"[{r}] + {r}.children", it1) or match(f"{r}.children", it1):
+                o.refute(f, L1, L1.iter, f"`{hdr(L1)}` visits only direct children: deeper tasks get no entry (expected all_children + [root])")
+            elif match(f"[{r}]", it1):
+                o.refute(f, L1, L1.iter, f"`{hdr(L1)}` visits only the root")
+            else:
+                o.undecided(f, L1, L1.iter, f"cannot tell whether `{src(it1)[:60]}` enumerates the subtree of `{r}` exactly once")
+            return None
+        if match(f"{s}.{w}.$a", it0) or isinstance(it0, ast.ListComp) or (isinstance(it0, ast.Subscript) and is_all_tasks(it0.value, f, w)):
+            o.refute(f, L0, L0.iter, f"`{hdr(L0)}` does not enumerate every task of the WBS")
+            return None
+        o.undecided(f, L0, L0.iter, f"cannot tell whether `{src(it0)[:60]}` enumerates every task exactly once")
+        return None
+
+    T = None
+    for st, arg in dapps:
+        dom = domain(chains[id(st)], 'entry', st)
+        if dom is None:
+            return
+        L, rest, loops = dom
+        if rest:
+            o.refute(f, st, f"{A}.append: per {hdr(rest[-1])}", f"`{src(st)[:50]}` sits inside `{hdr(rest[-1])}`: a task gets one entry "
+                                                                 f"per element of that loop, not exactly one")
+            return
+        if T is not None and T[0] is not L:
+            o.undecided(f, st, st, f"`{A}` is filled by two different task loops")
+            return
+        T = (L, loops)
+    L, loops = T
+    t = L.target.id
+    if not per_iteration(o, f, L, {id(st): 'entry' for st, _ in dapps}, 'entry', f"{A}.append"):
+        return
+    if len(loops) == 2 and not per_iteration(o, f, loops[0], {id(L): 'subtree'}, 'subtree', 'loop over the root\'s subtree'):
+        return
+    if not once_per_call(o, f, {id(loops[0]): 'unit'}, 'unit', 'loop appending the task entries'):
+        return
+    o.site(f, L, f"one {A}.append per task: " + ' / '.join(hdr(x) for x in loops))
+
+    # ---- links: one per predecessor, uniquely numbered
+    if not lapps:
+        o.refute(f, f.node, f"{B}.append: none", f"nothing is ever appended to `{B}`: dependencies are not rendered")
+        return
+    Pl = None
+    for st, arg in lapps:
+        C = chains[id(st)]
+        if not (len(C) >= len(loops) and all(a is b for a, b in zip(loops, C))):
+            o.refute(f, st, f"{B}.append: outside the task loop", f"`{src(st)[:50]}` is not executed per task and predecessor "
+                                                                   f"(enclosing loops: {', '.join(hdr(x) for x in C) or 'none'})")
+            return
+        rest = C[len(loops):]
+        if len(rest) != 1 or not isinstance(rest[0], ast.For) or not isinstance(rest[0].target, ast.Name):
+            if not rest:
+                o.refute(f, st, f"{B}.append: per task", f"`{src(st)[:50]}` runs once per task, outside a loop over the task's "
+                                                         f"predecessors: not one link per dependency")
+            else:
+                o.undecided(f, st, st, "link appended in an unexpected loop nest")
+            return
+        if Pl is not None and Pl is not rest[0]:
+            o.undecided(f, st, st, "links are appended by two predecessor loops")
+            return
+        Pl = rest[0]
+    itp = strip_seq(for_iter(ctx, f, Pl))
+    if not match(f"{t}.predecessors", itp):
+        if match(f"{t}.$a", itp) or isinstance(itp, (ast.ListComp, ast.Subscript)):
+            o.refute(f, Pl, Pl.iter, f"links are produced for `{src(itp)[:60]}` instead of every element of `{t}.predecessors`")
+        else:
+            o.undecided(f, Pl, Pl.iter, f"cannot relate `{src(itp)[:60]}` to `{t}.predecessors`")
+        return
+    p = Pl.target.id
+    if not per_iteration(o, f, Pl, {id(st): 'link' for st, _ in lapps}, 'link', f"{B}.append"):
+        return
+    if not per_iteration(o, f, L, {id(Pl): 'ploop'}, 'ploop', 'loop over the predecessors'):
+        return
+    o.site(f, Pl, f"one {B}.append per `{p}` of {t}.predecessors")
+    counter_ok = True
+    for st, arg in lapps:
+        d0, at = origin(f, arg, fl.node_of_expr(arg))
+        it = dict_items(d0) if isinstance(d0, ast.Dict) else None
+        if it is None or not {'id', 'source', 'target'} <= set(it):
+            o.undecided(f, st, arg, "the link is not a dict literal with id/source/target")
+            counter_ok = False
+            continue
+        sv, tv = deep(ctx, f, it['source'], at), deep(ctx, f, it['target'], at)
+        if match(f"{t}.id", sv) and match(f"{p}.id", tv):
+            o.refute(f, st, "link: source/target swapped", f"the link runs from the task to its predecessor (source={t}.id, "
+                                                           f"target={p}.id): the dependency is reversed")
+            counter_ok = False
+        elif not (match(f"{p}.id", sv) and match(f"{t}.id", tv)):
+            o.refute(f, st, f"link: source={src(sv)} target={src(tv)}", f"the link is source=`{src(sv)}`, target=`{src(tv)}`; "
+                                                                        f"expected source={p}.id (predecessor), target={t}.id")
+            counter_ok = False
+        if 'type' in it:
+            ty = it['type']
+            if isinstance(ty, ast.Constant) and str(ty.value) != '0':
+                o.refute(f, st, f"link: type {ty.value!r}", f"link type {ty.value!r} is not finish-to-start (\"0\"): the predecessor "
+                                                           f"relation is drawn as another kind of dependency")
+                counter_ok = False
+        # numbering
+        idv = it['id']
+        if match(f"len({B}) + $k", idv) or match(f"len({B})", idv) or match(f"$k + len({B})", idv):
+            o.site(f, st, f"link id = {src(idv)} (grows with every append)")
+            continue
+        if not isinstance(idv, ast.Name):
+            o.undecided(f, st, idv, f"link id `{src(idv)}` is neither a counter variable nor len({B})+k")
+            counter_ok = False
+            continue
+        c = idv.id
+        inits, incs = [], []
+        for d in fl.defs_of(c):
+            if d.kind == 'assign' and d.value is not None and facts.const_num(d.value) is not None:
+                inits.append(d)
+            elif d.kind == 'aug' and isinstance(d.stmt.op, ast.Add) and (facts.const_num(d.stmt.value) or 0) > 0:
+                incs.append(d)
+            elif d.kind == 'assign' and d.value is not None and (
+                    (match(f"{c} + $k", d.value) and (facts.const_num(match(f"{c} + $k", d.value)['k']) or 0) > 0) or
+                    (match(f"$k + {c}", d.value) and (facts.const_num(match(f"$k + {c}", d.value)['k']) or 0) > 0)):
+                incs.append(d)
+            elif d.kind == 'aug':
+                o.refute(f, d.stmt, d.stmt, f"the link counter is updated by `{src(d.stmt)}`, which does not step it forward")
+                counter_ok = False
+            else:
+                o.undecided(f, d.stmt or f.node, f"{c}: def", f"link counter `{c}` is defined in a way the rule does not model")
+                counter_ok = False
+        if not counter_ok:
+            continue
+        if len(inits) != 1:
+            if not inits:
+                o.undecided(f, st, f"{c}: init", f"link counter `{c}` is never initialised with a constant")
+            else:
+                o.refute(f, inits[1].stmt, f"{c}: initialised {len(inits)} times", f"link counter `{c}` is initialised "
+                         f"{len(inits)} times: numbering restarts and link ids repeat")
+            counter_ok = False
+            continue
+        inner = cfg.enclosing_loops(inits[0].node)
+        if inner:
+            lp = chains[id(inits[0].stmt)]
+            o.refute(f, inits[0].stmt, f"{c} = {src(inits[0].value)} inside a loop",
+                     f"link counter `{c}` is initialised inside `{hdr(lp[-1]) if lp else 'a loop'}`: numbering restarts on every "
+                     f"iteration and link ids are no longer unique (expected one initialisation before all loops)")
+            counter_ok = False
+            continue
+        if not cfg.dominates(inits[0].node, cfg.node_of(Pl)):
+            o.refute(f, inits[0].stmt, f"{c}: init after use", f"link counter `{c}` is not initialised before the link loop on every path")
+            counter_ok = False
+            continue
+        if not incs:
+            o.refute(f, st, f"{c}: never incremented", f"link counter `{c}` is never incremented: every link gets id {src(inits[0].value)}")
+            counter_ok = False
+            continue
+        outside = [d for d in incs if not (chains[id(d.stmt)] and chains[id(d.stmt)][-1] is Pl)]
+        if outside:
+            lp = chains[id(outside[0].stmt)]
+            o.refute(f, outside[0].stmt, f"{c} += outside the link loop",
+                     f"link counter `{c}` is incremented {('in `' + hdr(lp[-1]) + '`') if lp else 'outside every loop'}, not once per "
+                     f"link: links of one task share an id")
+            counter_ok = False
+            continue
+        if per_iteration(o, f, Pl, {id(d.stmt): 'inc' for d in incs}, 'inc', f"increment of {c}"):
+            before = all(cfg.dominates(d.node, cfg.node_of(st)) for d in incs) if len(incs) == 1 else None
+            o.site(f, st, f"link id = {c}: initialised once before all loops, incremented exactly once per link "
+                          f"({'before' if before else 'around'} its use)")
+        else:
+            counter_ok = False
+
+    # ---- entry content (json) and date formats
+    for st, arg in dapps:
+        d0, at = origin(f, arg, fl.node_of_expr(arg))
+        it = dict_items(d0) if isinstance(d0, ast.Dict) else None
+        if it is None:
+            oj.undecided(f, st, arg, "the task entry is not a dict literal with constant keys")
+            continue
+        need = ('id', 'text', 'start_date', 'end_date', 'parent', 'progress')
+        miss = [k for k in need if k not in it]
+        if miss:
+            oj.refute(f, st, f"entry: no {miss[0]}", f"the task entry has no `{miss[0]}` key (dhtmlxGantt reads {', '.join(need)})")
+            continue
+        ex = {k: deep(ctx, f, it[k], at) for k in need if k != 'progress'}
+        if not match(f"{t}.id", ex['id']):
+            oj.refute(f, st, f"entry id: {src(ex['id'])[:40]}", f"entry id is `{src(ex['id'])[:50]}`, expected {t}.id")
+            continue
+        nb, nchain = sanitiser(ex['text'])
+        if match(f"{t}.name", nb) and not nchain:
+            oj.site(f, st, f"entry text = {t}.name, quoted by json.dumps only")
+        elif any(k == 'lit' for k, _ in parts(ex['text'])) or nchain:
+            oj.refute(f, st, f"entry text: {src(ex['text'])[:50]}", f"the task name is pre-processed (`{src(ex['text'])[:60]}`) before "
+                                                                      f"json.dumps: the displayed name is altered")
+            continue
+        else:
+            oj.refute(f, st, f"entry text: {src(ex['text'])[:50]}", f"entry text is `{src(ex['text'])[:60]}`, expected {t}.name")
+            continue
+        # dates
+        okd = True
+        for key, attr in (('start_date', 'start'), ('end_date', 'end')):
+            mm = match(f"{t}.$a.strftime($f)", ex[key])
+            if not mm:
+                oj.undecided(f, st, ex[key], f"`{key}` is not {t}.{attr}.strftime(<format>)")
+                okd = False
+            elif mm['a'] != attr:
+                oj.refute(f, st, f"entry {key}: {t}.{mm['a']}", f"`{key}` is taken from {t}.{mm['a']} instead of {t}.{attr}")
+                okd = False
+            else:
+                fm = check_date_format(ofm, f, st, f"the entry's {key}", mm['f'])
+                if fm is None:
+                    okd = False
+                    continue
+                text = DHX.get('template') or ''
+                cm = re.search(r'(?:date_format|xml_date)\s*=\s*["\']([^"\']+)["\']', text)
+                want = cm.group(1).replace('%i', '%M') if cm else _DHTMLX_DEFAULT_DATE
+                if fm != want:
+                    ofm.refute(f, st, f"entry {key}: strftime({fm!r})", f"`{key}` is written with {fm!r} but dhtmlxGantt parses task "
+                                                                          f"dates with {'its configured' if cm else 'its default'} "
+                                                                          f"date_format {want.replace('%M', '%i')!r} (%i = minutes)")
+                    okd = False
+                else:
+                    ofm.site(f, st, f"{key}: strftime({fm!r}) == dhtmlx date_format")
+        if okd:
+            oj.site(f, st, f"start_date/end_date = {t}.start/{t}.end")
+        check_parent(ctx, oj, f, st, ex['parent'], t, w)
+        check_progress(ctx, oj, f, st, it['progress'], at, t)
+
+
+def check_parent(ctx, o, f: Func, st, pv: ast.AST, t: str, w: str):
+    s = f.self_name
+    conds, value, default = None, None, None
+    if isinstance(pv, ast.IfExp):
+        if facts.const_num(pv.orelse) is not None or isinstance(pv.orelse, ast.Constant):
+            conds, value, default = facts.split_conj(pv.test, True), pv.body, pv.orelse
+        elif isinstance(pv.body, ast.Constant):
+            conds, value, default = facts.split_conj(pv.test, False), pv.orelse, pv.body
+    elif isinstance(pv, ast.BoolOp) and isinstance(pv.op, ast.Or) and len(pv.values) == 2:
+        a, default = pv.values
+        if isinstance(a, ast.BoolOp) and isinstance(a.op, ast.And):
+            conds, value = [c for v in a.values[:-1] for c in facts.split_conj(v, True)], a.values[-1]
+        else:
+            conds, value = [], a
+    elif match("$x.id", pv):
+        conds, value, default = [], pv, None
+    if conds is None:
+        o.undecided(f, st, pv, f"`parent` value `{src(pv)[:70]}` is not `<task>.parent.id if <member test> else 0`")
+        return
+    if not match(f"{t}.parent.id", value):
+        if match("$x.id", value) or match("$x", value) and isinstance(value, (ast.Name, ast.Attribute)):
+            o.refute(f, st, f"parent: {src(value)[:40]}", f"`parent` is `{src(value)[:50]}`, expected {t}.parent.id")
+        else:
+            o.undecided(f, st, value, f"`parent` value `{src(value)[:60]}` not understood")
+        return
+    if default is None or not (isinstance(default, ast.Constant) and default.value == 0 and default.value is not False):
+        o.refute(f, st, f"parent default: {src(default) if default is not None else 'none'}",
+                 f"a task whose parent is not rendered gets parent `{src(default) if default is not None else '<parent id>'}`, "
+                 f"expected 0 (dhtmlxGantt's root)")
+        return
+    member = False
+    for a, pol in conds:
+        while isinstance(a, ast.UnaryOp) and isinstance(a.op, ast.Not):
+            a, pol = a.operand, not pol
+        m = match(f"{t}.parent in $c", a)
+        mn = match(f"{t}.parent not in $c", a)
+        if m or mn:
+            c = (m or mn)['c']
+            positive = pol if m else not pol
+            if not is_all_tasks(c, f, w):
+                o.undecided(f, st, a, f"membership is tested against `{src(c)[:50]}`, not self.{w}.tasks")
+                return
+            if not positive:
+                o.refute(f, st, f"parent: {src(a)[:50]} inverted", "the membership test of the parent is inverted: members' children "
+                                                                   "get parent 0, children of outsiders get a dangling parent id")
+                return
+            member = True
+            continue
+        nn = match(f"{t}.parent", a) or match(f"{t}.parent is not None", a) or match(f"{t}.parent != None", a)
+        nz = match(f"{t}.parent is None", a) or match(f"{t}.parent == None", a)
+        if nn or nz:
+            if (pol if nn else not pol):
+                continue
+            o.refute(f, st, f"parent: {src(a)[:50]} inverted", "the None test of the parent is inverted")
+            return
+        o.undecided(f, st, a, f"unrecognised condition `{src(a)[:60]}` on the parent id")
+        return
+    if not member:
+        o.refute(f, st, f"parent: {src(pv)[:60]}", f"`parent` is `{src(pv)[:80]}`: the parent's id is used without testing that the "
+                                                   f"parent is one of self.{w}.tasks; a task whose parent is outside the rendered "
+                                                   f"WBS points to a missing entry (expected `... in self.{w}.tasks else 0`)")
+        return
+    o.site(f, st, f"parent = {t}.parent.id if {t}.parent in self.{w}.tasks else 0")
+
+
+_PROGRESS_OK = ("1 - max($e - $s, 0) / $e", "1 - max(0, $e - $s) / $e", "($e - max($e - $s, 0)) / $e", "($e - max(0, $e - $s)) / $e",
+                "min($s, $e) / $e", "min($e, $s) / $e", "min($s / $e, 1)", "min(1, $s / $e)")
+_PROGRESS_BAD = (("$s / $e", "exceeds 1 when spent > estimate"), ("1 - ($e - $s) / $e", "exceeds 1 when spent > estimate"),
+                 ("($e - $s) / $e", "is the remaining share and negative when spent > estimate"),
+                 ("max($e - $s, 0) / $e", "is the remaining share, not the progress"),
+                 ("1 - max($e - $s, 0)", "is not divided by the estimate"),
+                 ("1 - max($e - $s, 0) / $s", "divides by the spent work"))
+
+
+def check_progress(ctx, o, f: Func, st, pv: ast.AST, at, t: str):
+    from .sched import sign_test
+    fl = flow_of(f)
+    cases = []          # (value expr, cfg node, def stmt)
+    if isinstance(pv, ast.Name):
+        ds = fl.reaching(pv.id, at)
+        if not ds or any(d.kind != 'assign' or d.value is None for d in ds):
+            o.undecided(f, st, pv, f"`progress` variable `{pv.id}` is not defined by plain assignments only")
+            return
+        cases = [(d.value, d.node, d.stmt) for d in ds]
+    else:
+        cases = [(pv, at, st)]
+    good = True
+    for val, node, dst in cases:
+        flat = []
+
+        def rec(e, conds):
+            if isinstance(e, ast.IfExp):
+                rec(e.body, conds + facts.split_conj(e.test, True))
+                rec(e.orelse, conds + facts.split_conj(e.test, False))
+            else:
+                flat.append((e, conds))
+        rec(deep(ctx, f, val, node), [])
+        for e, extra in flat:
+            k = facts.const_num(e)
+            if k is not None:
+                if 0 <= k <= 1:
+                    o.site(f, dst, f"progress = {k}")
+                else:
+                    o.refute(f, dst, f"progress = {k}", f"progress constant {k} lies outside 0..1")
+                    good = False
+                continue
+            m = next((mm for mm in (match(p_, e) for p_ in _PROGRESS_OK) if mm), None)
+            if m is None:
+                bad = next(((mm, why) for mm, why in ((match(p_, e), why) for p_, why in _PROGRESS_BAD) if mm), None)
+                if bad:
+                    o.refute(f, dst, f"progress = {src(e)[:50]}", f"progress `{src(e)[:60]}` {bad[1]} (expected 1 - max(estimate - "
+                                                                   f"spent, 0) / estimate, within 0..1)")
+                else:
+                    o.undecided(f, dst, e, f"progress formula `{src(e)[:60]}` is not one the rule can bound")
+                good = False
+                continue
+            if not (match(f"{t}.estimate", m['e']) and match(f"{t}.spent", m['s'])):
+                o.refute(f, dst, f"progress = {src(e)[:50]}", f"progress is computed from `{src(m['e'])}` and `{src(m['s'])}`; expected "
+                                                               f"the task's estimate (divisor) and spent")
+                good = False
+                continue
+            conds = facts.node_conditions(ctx.prog, f, dst, ctx.typer) + extra
+            pos = nn = False
+            for a, pol in conds:
+                stt = sign_test(a, pol)
+                if stt and same(stt[0], m['e']) and stt[1] in ('>', '!='):
+                    pos = True
+                if same(a, m['e']) and pol:
+                    pos = True
+                b = a
+                while isinstance(b, ast.UnaryOp) and isinstance(b.op, ast.Not):
+                    b, pol = b.operand, not pol
+                if (match("$x is not None", b) and same(match("$x is not None", b)['x'], m['s']) and pol) or \
+                        (match("$x is None", b) and same(match("$x is None", b)['x'], m['s']) and not pol) or (same(b, m['s']) and pol):
+                    nn = True
+            if not pos:
+                o.refute(f, dst, f"progress: no {src(m['e'])} > 0", f"progress divides by `{src(m['e'])}` without a dominating "
+                                                                    f"`{src(m['e'])} > 0` test: zero estimates (milestones) crash / leave 0..1")
+                good = False
+            elif not nn:
+                o.refute(f, dst, f"progress: {src(m['s'])} may be None", f"progress uses `{src(m['s'])}` without excluding None")
+                good = False
+            else:
+                o.site(f, dst, f"progress = {src(e)} under {src(m['e'])} > 0 and {src(m['s'])} is not None: within 0..1 since spent >= 0")
+    if good:
+        # lower bound needs spent >= 0: the setter's guard
+        sp = ctx.prog.func('task.Task.spent.setter')
+        okg = False
+        for g in facts.guards_of(ctx.prog, sp, ctx.typer):
+            for a, pol in [x for c, p_ in g.conds for x in facts.split_conj(c, p_)]:
+                stt = sign_test(a, pol)
+                if stt and src(stt[0]) == sp.params[1] and stt[1] == '<':
+                    okg = True
+        if okg:
+            o.site(sp, sp.node, "Task.spent setter rejects negative values (lower bound of progress)")
+        else:
+            o.undecided(sp, sp.node, 'spent >= 0', "Task.spent is no longer guarded against negative values: progress may exceed 1 - .. bounds")
+
+
+# ------------------------------------------------------------------------------------------------------- entry point
+def check(ctx):
+    ctx.assume("Mermaid's grammar itself is not modelled: `}}`/`{{`, `#`, `;` or line breaks inside task names are not decided")
+    ctx.assume("dhtmlxGantt 7.1 parses task dates with gantt.config.date_format, default '%d-%m-%Y %H:%i', unless the template sets it")
+    ctx.assume("WBS.tasks, and WBS.roots with all_children + [root], both enumerate every task of the WBS exactly once (C01/C05)")
+    ctx.assume("term expansion assumes no aliasing writes between a definition and its use inside one function")
+    O = {
+        'templates': ctx.ob('templates', 'R10', "placeholders ($name/${name}, $$ escapes) of each template == keyword names of its "
+                                                 "Template(..).substitute call, and the rendering function feeds one of them", floor=6),
+        'once': ctx.ob('once', 'R13', "Mermaid gantt: one task line per task on the sectioned and the unsectioned path, one header per "
+                                      "section, section map = one append per task; network: one Start edge iff no predecessors else one "
+                                      "edge per predecessor; DHTMLX: one data.append per task, one uniquely numbered link per predecessor",
+                       floor=10),
+        'formats': ctx.ob('formats', 'R10', "strftime formats carry day, month, year, hour, minute; Mermaid dateFormat == strftime format "
+                                            "under DD/MM/YYYY/HH/mm <-> %d/%m/%Y/%H/%M; DHTMLX dates match its date_format; task line is "
+                                            "`name : flags id, start, end`; `milestone,` flag iff task.milestone, tested first", floor=7),
+        'json': ctx.ob('json', 'R8', "DHTMLX payload = json.dumps of python containers; entry id/text/start/end of the task itself; "
+                                     "parent = parent.id if parent in self.wbs.tasks else 0; progress within 0..1", floor=8),
+        'escape': ctx.ob('escape', 'R11', "the three _repr_html_ return the iframe with srcdoc=\"escape(self.to_html())\"", floor=3),
+        'sinks': ctx.ob('sinks', 'R5', "a task name reaching the gantt line loses ':'; `</` is neutralised after json.dumps inside "
+                                       "<script>; all name labels of network edges pass the same quote-removing sanitiser", floor=7),
+    }
+    _guard(ctx, O['templates'], lambda o: check_templates(ctx, o))
+    _guard(ctx, O['escape'], lambda o: check_escape(ctx, o))
+    _guard(ctx, O['once'], lambda o: gantt_once(ctx, o))
+    _guard(ctx, O['formats'], lambda o: gantt_formats(ctx, o))
+    _guard(ctx, O['sinks'], lambda o: gantt_sinks(ctx, o))
+
+    def both(primary, others, fn):
+        """one analysis feeding several obligations: an idiom it does not understand is undecided for all of them"""
+        def body(o):
+            try:
+                fn()
+            except Und as u:
+                for x in [primary] + others:
+                    x.undecided(u.func, u.node, u.construct, u.msg)
+            except TooManyPaths:
+                for x in [primary] + others:
+                    x.undecided(None, None, 'paths', "too many control-flow paths to enumerate")
+        ctx.guarded(primary, body)
+    both(O['once'], [O['sinks']], lambda: check_network(ctx, O['once'], O['sinks']))
+    both(O['once'], [O['json'], O['formats'], O['sinks']], lambda: check_dhtmlx(ctx, O))
